@@ -304,6 +304,12 @@ impl Map32 {
         }
     }
 
+    /// Verification hook: `prev_link[chunk]`.
+    #[cfg(feature = "mmtk_verif")]
+    pub(crate) fn verif_prev_link(&self, chunk: usize) -> i32 {
+        self.prev_link[chunk]
+    }
+
     fn get_discontig_freelist_pr_ordinal(&self) -> usize {
         // This is only called during creating a page resource/space/plan/mmtk instance, which is single threaded.
         let self_mut: &mut Map32Inner = unsafe { self.mut_self() };
